@@ -19,6 +19,7 @@ import (
 	"os"
 	"os/exec"
 	"path/filepath"
+	"reflect"
 	"sort"
 	"strings"
 	"time"
@@ -79,6 +80,10 @@ type simSpec struct {
 	Mode   string      `json:"mode"` // round | desc | nodesc
 	Tree   *node       `json:"tree"`
 	Agents []agentSpec `json:"agents,omitempty"`
+	// Prelude: a round that must have run on the same core immediately before this one; task
+	// roles of both trees that carry the same class key load ONE class (state shared between
+	// calls would show in this round). The harness runs the prelude as the spec before this one.
+	Prelude *simIn `json:"prelude,omitempty"`
 	// derived from Tree by renameSpec (names unique in the run); not part of the replay input
 	Wf      string            `json:"wf,omitempty"`
 	Yaml    string            `json:"yaml,omitempty"`
@@ -92,6 +97,7 @@ type simIn struct {
 	Tree   *node       `json:"tree"`
 	Agents []agentSpec `json:"agents,omitempty"`
 	Role   string      `json:"role,omitempty"` // desc cases: the task role this case is about
+	Prelude *simIn     `json:"prelude,omitempty"`
 }
 
 // what the child reports for one spec
@@ -277,27 +283,64 @@ func fromConstraints(l constraint.Constraints) []cst {
 }
 
 func caseSatisfy(in pureIn) gen.Case {
-	var attrs constraint.Attributes
 	var items []string
+	mk := func() constraint.Attributes {
+		var attrs constraint.Attributes
+		for _, a := range in.Attrs {
+			if a.Text {
+				attrs = append(attrs, mesos.Attribute{Name: a.N, Type: mesos.TEXT, Text: &mesos.Value_Text{Value: a.V}})
+			} else {
+				attrs = append(attrs, mesos.Attribute{Name: a.N, Type: mesos.SCALAR, Scalar: &mesos.Value_Scalar{Value: 1}})
+			}
+		}
+		return attrs
+	}
 	for _, a := range in.Attrs {
 		if a.Text {
-			attrs = append(attrs, mesos.Attribute{Name: a.N, Type: mesos.TEXT, Text: &mesos.Value_Text{Value: a.V}})
 			items = append(items, gen.Pair(gen.Str(a.N), gen.Str(a.V)))
 		} else {
-			attrs = append(attrs, mesos.Attribute{Name: a.N, Type: mesos.SCALAR, Scalar: &mesos.Value_Scalar{Value: 1}})
 			items = append(items, gen.Pair(gen.Str(a.N), gen.Str("")))
 		}
 	}
-	ok := attrs.Satisfy(toConstraints(in.Cts))
-	return gen.Case{Term: fmt.Sprintf("CSatisfy %s %s %s", gen.List(items), cstsTerm(in.Cts), gen.Bool(ok)),
-		Kind: "satisfy", Input: in, Obs: ok}
+	attrs, cts := mk(), toConstraints(in.Cts)
+	ok := attrs.Satisfy(cts)
+	// the arguments must come back as they went in, and a second call must agree with the first
+	kept := reflect.DeepEqual(attrs, mk()) && reflect.DeepEqual(cts, toConstraints(in.Cts)) && attrs.Satisfy(cts) == ok
+	return gen.Case{Term: fmt.Sprintf("CSatisfy %s %s %s %s", gen.List(items), cstsTerm(in.Cts), gen.Bool(ok), gen.Bool(kept)),
+		Kind: "satisfy", Input: in, Obs: map[string]interface{}{"ok": ok, "argsKept": kept}}
 }
 
+// caseMergeParent calls MergeParent the way the class path does: the parent is a slice somebody
+// else owns (here with spare capacity behind it, filled with sentinels). Afterwards the receiver,
+// the parent, the spare capacity must be untouched, the result must not share memory with the
+// parent, and a second call with the same arguments must give the same result.
 func caseMergeParent(in pureIn) gen.Case {
-	m := toConstraints(in.Own).MergeParent(toConstraints(in.Parent))
+	const spare = 3
+	own := toConstraints(in.Own)
+	n := len(in.Parent)
+	backing := make(constraint.Constraints, n+spare)
+	copy(backing, toConstraints(in.Parent))
+	sentinel := constraint.Constraint{Attribute: "\x00spare", Value: "\x00", Operator: 77}
+	for i := n; i < n+spare; i++ {
+		backing[i] = sentinel
+	}
+	parent := backing[:n:n+spare]
+	m := own.MergeParent(parent)
 	obs := fromConstraints(m)
-	return gen.Case{Term: fmt.Sprintf("CMergeParent %s %s %s", cstsTerm(in.Own), cstsTerm(in.Parent), cstsTerm(obs)),
-		Kind: "mergeparent", Input: in, Obs: obs}
+	kept := reflect.DeepEqual(own, toConstraints(in.Own)) && len(parent) == n
+	for i, c := range toConstraints(in.Parent) {
+		kept = kept && backing[i] == c
+	}
+	for i := n; i < n+spare; i++ {
+		kept = kept && backing[i] == sentinel
+	}
+	if len(m) > 0 && &m[0] == &backing[0] {
+		kept = false // the result is the parent's memory: the next writer changes the parent
+	}
+	again := own.MergeParent(parent)
+	kept = kept && reflect.DeepEqual(fromConstraints(again), obs)
+	return gen.Case{Term: fmt.Sprintf("CMergeParent %s %s %s %s", cstsTerm(in.Own), cstsTerm(in.Parent), cstsTerm(obs), gen.Bool(kept)),
+		Kind: "mergeparent", Input: in, Obs: map[string]interface{}{"merged": obs, "argsKept": kept}}
 }
 
 func fromPortRanges(rs port.Ranges) [][2]uint64 {
@@ -372,6 +415,16 @@ func caseRangeOp(in pureIn) (c gen.Case) {
 func milli(v int64) float64 { return float64(v) / 1000.0 }
 
 func caseResSat(in pureIn) gen.Case {
+	res, w := resSatArgs(in)
+	ok := task.Resources(res).Satisfy(w)
+	res0, w0 := resSatArgs(in)
+	kept := reflect.DeepEqual(res, res0) && reflect.DeepEqual(w, w0) && task.Resources(res).Satisfy(w) == ok
+	return gen.Case{Term: fmt.Sprintf("CResSat %s %s %s %d %d %s %d %s %s", optN(in.Cpu), optN(in.Mem), optRanges(in.HasP, in.Ports),
+		in.WCpu, in.WMem, rangesTerm(in.Static), in.NChans, gen.Bool(ok), gen.Bool(kept)), Kind: "ressat", Input: in,
+		Obs: map[string]interface{}{"ok": ok, "argsKept": kept}}
+}
+
+func resSatArgs(in pureIn) (mesos.Resources, *task.Wants) {
 	var res mesos.Resources
 	if in.Cpu != nil {
 		res = append(res, mesos.Resource{Name: "cpus", Type: mesos.SCALAR.Enum(), Scalar: &mesos.Value_Scalar{Value: milli(*in.Cpu)}})
@@ -394,9 +447,7 @@ func caseResSat(in pureIn) gen.Case {
 	for i := 0; i < in.NChans; i++ {
 		w.InboundChannels = append(w.InboundChannels, inboundFor(chn{Name: fmt.Sprintf("c%d", i), Tcp: true}))
 	}
-	ok := task.Resources(res).Satisfy(w)
-	return gen.Case{Term: fmt.Sprintf("CResSat %s %s %s %d %d %s %d %s", optN(in.Cpu), optN(in.Mem), optRanges(in.HasP, in.Ports),
-		in.WCpu, in.WMem, rangesTerm(in.Static), in.NChans, gen.Bool(ok)), Kind: "ressat", Input: in, Obs: ok}
+	return res, w
 }
 
 // ---------------------------------------------------------------- layer 2: cases from child observations
@@ -501,6 +552,9 @@ func runSim(specs []simSpec, workRoot string) ([]simObs, error) {
 		hi := next + batch
 		if hi > len(specs) {
 			hi = len(specs)
+		}
+		if hi < len(specs) && specs[hi].Prelude != nil {
+			hi++ // never separate a round from its prelude
 		}
 		childNo++
 		dir := filepath.Join(workRoot, fmt.Sprintf("child%03d", childNo))
@@ -648,6 +702,14 @@ func main() {
 		sim  *simSpec
 	}
 	var items []item
+	// a spec with a prelude is preceded by the prelude round (same child process, shared classes)
+	addSim := func(kind string, sp simSpec) {
+		if sp.Prelude != nil {
+			pre := simSpec{Mode: sp.Prelude.Mode, Tree: cloneTree(sp.Prelude.Tree), Agents: sp.Prelude.Agents}
+			items = append(items, item{kind: pre.Mode, sim: &pre})
+		}
+		items = append(items, item{kind: kind, sim: &sp})
+	}
 	addReplay := func(path string) {
 		ins, kinds, err := gen.LoadReplay(path)
 		if err != nil {
@@ -667,7 +729,7 @@ func main() {
 				if err := json.Unmarshal(raw, &sp); err != nil {
 					panic(err)
 				}
-				items = append(items, item{kind: kinds[i], sim: &sp})
+				addSim(kinds[i], sp)
 			}
 		}
 	}
@@ -684,7 +746,8 @@ func main() {
 		nRound := o.N / 12
 		nDesc := o.N / 12
 		nNoDesc := o.N / 120
-		nPure := o.N - nRound - nDesc - nNoDesc
+		nShared := o.N / 100
+		nPure := o.N - nRound - nDesc - nNoDesc - 4*nShared
 		for i := 0; i < nPure; i++ {
 			k, in := g.pure(i)
 			items = append(items, item{kind: k, pure: &in})
@@ -692,6 +755,11 @@ func main() {
 		for i := 0; i < nDesc; i++ {
 			sp := g.descSpec(i)
 			items = append(items, item{kind: "desc", sim: &sp})
+		}
+		for i := 0; i < nShared; i++ {
+			addSim("desc", g.sharedSpec("desc", false))
+			addSim("round", g.sharedSpec("round", false))
+			addSim("round", g.sharedSpec("round", true)) // two rounds on one core
 		}
 		for i := 0; i < nRound; i++ {
 			sp := g.roundSpec(i)
@@ -715,11 +783,18 @@ func main() {
 	ins := make([]simIn, len(specs))
 	for i := range specs {
 		var cp simIn
-		b, _ := json.Marshal(simIn{Mode: specs[i].Mode, Tree: specs[i].Tree, Agents: specs[i].Agents})
+		b, _ := json.Marshal(simIn{Mode: specs[i].Mode, Tree: specs[i].Tree, Agents: specs[i].Agents, Prelude: specs[i].Prelude})
 		json.Unmarshal(b, &cp)
 		blankNames(cp.Tree)
+		if cp.Prelude != nil {
+			blankNames(cp.Prelude.Tree)
+		}
 		ins[i] = cp
-		renameSpec(&specs[i], i)
+		base := i
+		if specs[i].Prelude != nil {
+			base = i - 1 // keyed classes carry the names the prelude gave them
+		}
+		renameSpec(&specs[i], i, base)
 	}
 	obs, err := runSim(specs, workRoot)
 	if err != nil {
